@@ -662,6 +662,8 @@ def run(scen, ctx):
                     scen['_intermediate'] = [x, d]
         orc = {}
         for name in scen.get('oracles', []):
+            if name not in ORACLES:
+                continue
             try:
                 orc[name] = ORACLES[name](ctx, scen, T, conv, val, out)
             except Exception as e:  # noqa  (an oracle crash is a harness problem, reported as such)
@@ -784,7 +786,8 @@ def c16_laws(pool):
             e = safe(op.eq, a, b)
             if e != safe(op.eq, b, a):
                 return f'== is not symmetric on {a!r}, {b!r}'
-            if e:
+            hash_in_compare = all(f.compare or not f.hash for f in type(a).__pane_info__.fields)   # the stdlib's own proviso
+            if e and hash_in_compare:
                 ha, hb = safe(hash, a), safe(hash, b)
                 if ha is not None and hb is not None and ha != hb:
                     return f'{a!r} == {b!r} but their hashes differ'
@@ -804,6 +807,55 @@ def c16_laws(pool):
     return None
 
 
+def c14_oracle(ctx, cls, args, kwargs):
+    """C14 observed directly: the constructor converts like from_data does, defaults are fresh products, the
+    set-field record is exactly the supplied fields"""
+    def attempt(f):
+        try:
+            return ('ok', f())
+        except ConvertError:
+            return ('convertError', None)
+        except BaseException as e:  # noqa
+            return ('raise', type(e).__name__)
+    a = attempt(lambda: cls(*args, **kwargs))
+    info = cls.__pane_info__
+    if a[0] == 'ok':
+        o = a[1]
+        import inspect
+        try:
+            bound = inspect.signature(cls).bind(*args, **kwargs).arguments
+        except TypeError:
+            bound = {}
+        if set(o.__pane_set__) != set(bound):
+            return f'set-field record {sorted(o.__pane_set__)} is not the supplied fields {sorted(bound)}'
+        b = attempt(lambda: cls(*args, **kwargs))
+        for f in info.fields:
+            if f.init and f.name not in bound:
+                va, vb = getattr(o, f.name, None), getattr(b[1], f.name, None)
+                if f.default_factory is not None:
+                    if va is f.default_factory or isinstance(va, type):
+                        return f'field {f.name} holds the factory itself, not its product'
+                    if va is vb and va is not None and not isinstance(va, (int, str, float, bool, tuple, frozenset, bytes)):
+                        return f'field {f.name}: two constructions share one default object'
+    # by name: the same fields through from_data (only Python field names, struct layout enabled, all data interchange)
+    names = {f.name for f in info.fields if f.init}
+    if not args and 'struct' in info.opts.in_format and set(kwargs) <= names and not info.opts.class_handlers \
+            and all(f.converter is None for f in info.fields):
+        try:
+            data = {k: pane.into_data(v) for k, v in kwargs.items()}
+        except BaseException:  # noqa
+            return None
+        b = attempt(lambda: cls.from_data(data))
+        if a[0] == 'raise' or b[0] == 'raise':
+            return None if a[0] == b[0] or a[0] == 'raise' else f'from_data raised {b[1]}'
+        if a[0] != b[0]:
+            return f'constructor: {a[0]}, from_data of the same fields: {b[0]}'
+        if a[0] == 'ok':
+            if canon(ctx.enc(a[1])) != canon(ctx.enc(b[1])):
+                return f'constructor gives {a[1]!r} (set {sorted(a[1].__pane_set__)}), from_data gives {b[1]!r} (set {sorted(b[1].__pane_set__)})'
+    return None
+
+
 def run_instance_op(scen, ctx):
     op = scen['op']
     cls = ctx.used.get(scen['cls']) or ctx.classes[scen['cls']]
@@ -815,7 +867,10 @@ def run_instance_op(scen, ctx):
             scen['_oracle'] = {'c09': 'a constructor argument was modified'}
         return out
     if op == 'construct':
-        return done(result_of(ctx, lambda: cls(*args, **kwargs)))
+        out = done(result_of(ctx, lambda: cls(*args, **kwargs)))
+        if 'c14' in scen.get('oracles', []):
+            scen.setdefault('_oracle', {})['c14'] = c14_oracle(ctx, cls, args, kwargs)
+        return out
     if op == 'unchecked':
         return done(result_of(ctx, lambda: cls.make_unchecked(*args, **kwargs)))
     if op == 'fromdict':
